@@ -34,3 +34,107 @@ def register(reg, stubs, world):
                 ('otherwise-the-configured-file', z3.Implies(z3.Not(legacy), out.value == pf))]
     reg.add(Contract('policy:pick_default_policy_file', pre=pick_pre, post=pick_post, allocates=True, props=('C09',),
                      doc='complete decision table of the policy-file choice'))
+    register2(reg, stubs, world)
+
+
+def register2(reg, stubs, world):
+    from specs.external import dcopy
+    from specs.printer import pr
+    from specs.wf import wf_tree, tree_axioms
+    from .deprecated import rule_obj_ok
+
+    # ------------------------------------------------------------------ copy.deepcopy of an object (trusted)
+    def dc_post(cx, out):
+        eng = cx.eng
+        if out.kind != 'ret':
+            return [False]
+        o, r = cx['o'], out.value
+        g0 = lambda f: eng.get(cx.st0, o, f)
+        g1 = lambda f: eng.get(out.st, r, f)
+        return [V.is_obj(r), V.ref(r) >= cx.st0.ap, clsof(V.ref(r)) == clsof(V.ref(o)),
+                # strings and None are copied to themselves; parsed checks to fresh trees that print the same
+                g1('_name') == g0('_name'), g1('_check_str') == g0('_check_str'),
+                g1('_description') == g0('_description'),
+                V.is_obj(g1('_check')) == V.is_obj(g0('_check')),
+                z3.Implies(V.is_obj(g1('_check')), V.ref(g1('_check')) >= cx.st0.ap),
+                z3.Implies(V.is_obj(g0('_check')), z3.And(V.is_obj(g1('_check')), V.ref(g1('_check')) >= cx.st0.ap,
+                                                         clsof(V.ref(g1('_check'))) == clsof(V.ref(g0('_check'))),
+                                                         pr(g1('_check')) == pr(g0('_check')),
+                                                         z3.Implies(wf_tree(g0('_check')), wf_tree(g1('_check'))))),
+                z3.Implies(z3.Not(V.is_obj(g0('scope_types'))), g1('scope_types') == g0('scope_types')),
+                z3.Implies(V.is_obj(g0('scope_types')), z3.And(
+                    V.is_obj(g1('scope_types')), V.ref(g1('scope_types')) >= cx.st0.ap,
+                    clsof(V.ref(g1('scope_types'))) == clsof(V.ref(g0('scope_types'))),
+                    eng.val(out.st, g1('scope_types')) == eng.val(cx.st0, g0('scope_types'))))]
+
+    def dc_frame(cx, f, old, new):
+        r = z3.Int('dc!r')
+        return [qforall([r], z3.Implies(r < cx.st0.ap, z3.Select(new, r) == z3.Select(old, r)))]
+    DC_FIELDS = ('_name', '_check_str', '_check', '_description', '_deprecated_rule', '_deprecated_for_removal',
+                 '_deprecated_reason', '_deprecated_since', 'scope_types', '_operations', '$val', 'rules', 'rule',
+                 'kind', 'match')
+    reg.add(Contract('$deepcopy_obj', post=dc_post, params=['o'], modifies=DC_FIELDS, frame=dc_frame, allocates=True,
+                     trusted=True, preserves=('wf_tree', 'wf_eval', 'pr'),
+                     doc='copy.deepcopy(obj): a fresh object graph of the same classes and content; nothing that '
+                         'existed before is written (trusted contract of the standard library)'))
+
+    # ------------------------------------------------------------------ register_default (C12)
+    def regd_pre(cx):
+        eng, st = cx.eng, cx.st0
+        s, d = cx['self'], cx['default']
+        regs = z3.Select(st.H('registered_rules'), V.ref(s))
+        return [('default-is-a-rule-default', rule_obj_ok(eng, st, d, 'RuleDefault')),
+                ('enforcer-owns-a-registry', z3.And(V.is_obj(s), V.is_obj(regs), clsof(V.ref(regs)) == eng.cid('dict'),
+                                                    V.is_dict(z3.Select(st.H('$val'), V.ref(regs))),
+                                                    V.ref(regs) != V.ref(d)))]
+
+    def regd_post(cx, out):
+        eng, st, s1 = cx.eng, cx.st0, out.st
+        s, d = cx['self'], cx['default']
+        regs = eng.get(st, s, 'registered_rules')
+        m0, m1 = V.m(eng.val(st, regs)), V.m(eng.val(s1, regs))
+        name = V.s(eng.get(st, d, '_name'))
+        dup = z3.Select(m0, name) != ABSENT
+        if out.kind != 'ret':
+            return [('DuplicatePolicyError-only-for-a-registered-name', z3.And(out.exc.cname == 'DuplicatePolicyError', dup)),
+                    ('registry-untouched-on-error', m1 == m0)]
+        k = z3.String('rg!k')
+        stored = z3.Select(m1, name)
+        return [('only-for-a-new-name', z3.Not(dup)),
+                ('stores-a-private-copy-not-the-callers-object', z3.And(
+                    V.is_obj(stored), V.ref(stored) >= st.ap, stored != d,
+                    clsof(V.ref(stored)) == clsof(V.ref(d)),
+                    eng.get(s1, stored, '_name') == eng.get(st, d, '_name'),
+                    eng.get(s1, stored, '_check_str') == eng.get(st, d, '_check_str'),
+                    V.ref(eng.get(s1, stored, '_check')) >= st.ap)),
+                ('other-registrations-untouched', qforall([k], z3.Implies(k != name, z3.Select(m1, k) == z3.Select(m0, k))))]
+
+    def regd_frame(cx, f, old, new):
+        # of the objects that existed before, only the registry dict changes
+        eng = cx.eng
+        regs = cx.old(cx['self'], 'registered_rules')
+        r = z3.Int('rf!r')
+        if f == '$val':
+            return [qforall([r], z3.Implies(z3.And(r < cx.st0.ap, r != V.ref(regs)), z3.Select(new, r) == z3.Select(old, r)))]
+        return [qforall([r], z3.Implies(r < cx.st0.ap, z3.Select(new, r) == z3.Select(old, r)))]
+    reg.add(Contract('policy:Enforcer.register_default', pre=regd_pre, post=regd_post, raises=('DuplicatePolicyError',),
+                     modifies=DC_FIELDS, frame=regd_frame, allocates=True, heap_axioms=tree_axioms, props=('C12',),
+                     doc='registration stores a deep copy: the caller\'s RuleDefault is neither stored nor written'))
+
+    # ------------------------------------------------------------------ RuleDefault.__eq__ (C15)
+    def eq_pre(cx):
+        eng, st = cx.eng, cx.st0
+        return [('both-are-rule-objects', z3.And(rule_obj_ok(eng, st, cx['self'], 'RuleDefault'),
+                                                 rule_obj_ok(eng, st, cx['other'], '_BaseRule')))]
+
+    def eq_post(cx, out):
+        eng, st = cx.eng, cx.st0
+        if out.kind != 'ret':
+            return [False]
+        a, b = cx['self'], cx['other']
+        g = lambda o, f: eng.get(st, o, f)
+        same = z3.And(g(a, '_name') == g(b, '_name'), pr(g(a, '_check')) == pr(g(b, '_check')),
+                      z3.Or(eng.isinst_dyn(a, b), eng.isinst_dyn(b, a)))
+        return [('equal-iff-same-name-same-printed-check-and-related-classes', out.value == mk_bool(same))]
+    reg.add(Contract('policy:RuleDefault.__eq__', pre=eq_pre, post=eq_post, heap_axioms=tree_axioms, props=('C15', 'C18'),
+                     doc='equality of rule defaults by name and printed check'))
